@@ -341,6 +341,18 @@ func ruleEnqueueBeforeSpawn(c *Check, p *Program, rule string) {
 				var chans []ssa.Value
 				for _, a := range g.Call.Args {
 					if _, isChan := a.Type().Underlying().(*types.Chan); isChan {
+						// a channel handed over with a narrower direction (chan<- T) is the same channel
+						for {
+							if ct, isCT := a.(*ssa.ChangeType); isCT {
+								a = ct.X
+								continue
+							}
+							if cv, isCv := a.(*ssa.Convert); isCv {
+								a = cv.X
+								continue
+							}
+							break
+						}
 						chans = append(chans, a)
 					}
 				}
@@ -455,7 +467,39 @@ func ruleCloseOnce(c *Check, p *Program, rule string) {
 		c.Funcs[fname(fn)] = true
 		closes := func(in ssa.Instruction) bool {
 			v, ok := isClose(in)
-			return ok && v == ch
+			if ok && v == ch {
+				return true
+			}
+			// or the channel is handed to a helper that closes its parameter exactly once on every path
+			call, isCall := in.(*ssa.Call)
+			if !isCall {
+				return false
+			}
+			g := staticCallee(call)
+			if g == nil || !inModule(g) || len(g.Blocks) == 0 || len(g.Params) != len(call.Call.Args) {
+				return false
+			}
+			for i, a := range call.Call.Args {
+				if a != ch {
+					continue
+				}
+				prm := g.Params[i]
+				isCl := func(j ssa.Instruction) bool {
+					w, okc := isClose(j)
+					return okc && w == ssa.Value(prm)
+				}
+				all, _ := mustOnAllPaths(nil, g, isCl, false, 0)
+				twice := false
+				allInstrs(g, func(j ssa.Instruction) {
+					if isCl(j) {
+						if r, _ := reachAvoid(g, j, isCl, nil); r {
+							twice = true
+						}
+					}
+				})
+				return all && !twice
+			}
+			return false
 		}
 		// loop head: the block containing the queue receive
 		head := recv.Block()
